@@ -75,6 +75,7 @@ Definition run_hist (h : list (Z * Z)) (k : kx) : kx :=
   fold_left (fun k tc => do_sample (fst tc) (snd tc) k) h k.
 
 (* ---- harness interface: a case is a list of operations, the observation one entry per op ----
+   (0 kind) choose wrapper (0 kbps, 1 krps)   -> (0)
    (1 t c)  doSample(now = t, count = c)     -> (1 d10 i10 d30 i30 d300 i300)
    (2 t c)  sampleAverage(now = t, count c)  -> (2 diff dur)
    (3)      mark started                      -> (3)
@@ -87,6 +88,7 @@ Definition obs_rates (k : kx) : list sx :=
 
 Definition step_op (k : kx) (op : sx) : kx * sx :=
   match op with
+  | SL [SZ 0; SZ _] => (k, SL [SZ 0])    (* wrapper kind (kbps/krps): scaling is applied by the judge *)
   | SL [SZ 1; SZ t; SZ c] => let k' := do_sample t c k in (k', SL (SZ 1 :: obs_rates k'))
   | SL [SZ 2; SZ t; SZ c] => let '(k', (d, u)) := sample_average t c k in (k', SL [SZ 2; SZ d; SZ u])
   | SL [SZ 3] => (set_started k true (closed k), SL [SZ 3])
